@@ -35,14 +35,15 @@ def joinSlash : List Str → Str
   | [a] => a
   | a :: b :: t => a ++ slash :: joinSlash (b :: t)
 
+/-- prepend a character to the first piece -/
+def consHead (c : Nat) : List Str → List Str
+  | [] => [[c]]                   -- unreachable below, `splitSlash` is never empty
+  | h :: t => (c :: h) :: t
+
 /-- `s.split("/")` (never empty: `"".split("/") == [""]`) -/
 def splitSlash : Str → List Str
   | [] => [[]]
-  | c :: cs =>
-    if c = slash then [] :: splitSlash cs
-    else match splitSlash cs with
-      | [] => [[c]]               -- unreachable, `splitSlash` is never empty
-      | h :: t => (c :: h) :: t
+  | c :: cs => if c = slash then [] :: splitSlash cs else consHead c (splitSlash cs)
 
 /-- `posixpath.join(a, b)`: an operand starting with `/` replaces the left side -/
 def posixJoin (a b : Str) : Str :=
@@ -238,34 +239,41 @@ def joinComma : List Str → Str
   | [a] => a
   | a :: b :: t => a ++ 44 :: joinComma (b :: t)
 
-/-- `render_get` (fileserver.py:154-181) with `render_get_dir` / `render_get_file` -/
+/-- `render_get` after the path is known (fileserver.py:162-181, 262-323): `stat`, ETag
+revalidation, then `render_get_dir` or `render_get_file` -/
+def renderGetAt (cfg : Config) (req : Request) (w : World) (p : PPath) : Result :=
+  let valid : Result := { resp := { outcome := .code 2 3 }, ops := [.stat p] }
+  let revalidated : Bool := cfg.etags && w.etagMatches      -- `etag and etag in request.opt.etags`
+  match w.stat with
+  | .absent => { resp := { outcome := .code 4 4 }, ops := [.stat p] }
+  | .softErr => { resp := { outcome := .crash }, ops := [.stat p] }
+  | .hardErr => { resp := { outcome := .crash }, ops := [.stat p] }
+  | .dir =>
+    if revalidated then valid
+    -- render_get_dir: a directory needs the trailing empty component (or no path at all)
+    else if req.path ≠ [] ∧ !trailingEmpty req.path then
+      { resp := { outcome := .code 4 0 }, ops := [.stat p] }
+    else
+      { resp := { outcome := .code 2 5
+                  payload := joinComma (w.children.map (listEntry cfg.root p)) }
+        ops := [.stat p, .scandir p] ++ w.children.map fun c => .stat (p.child c.1) }
+  | .file =>
+    if revalidated then valid
+    else if trailingEmpty req.path then { resp := { outcome := .code 4 0 }, ops := [.stat p] }
+    else
+      { resp := sliceBlock w.content req.block2
+        ops := [.stat p, .openRead p] ++ (if w.obsPending then [.stat p] else []) }
+  | .special =>
+    if revalidated then valid
+    -- neither directory nor regular file: `response` is never bound (UnboundLocalError)
+    else { resp := { outcome := .crash }, ops := [.stat p] }
+
+/-- `render_get` (fileserver.py:154-181) -/
 def renderGet (cfg : Config) (req : Request) (w : World) : Result :=
   if req.path = wellKnownCore then { resp := { outcome := .code 2 5, payload := rootLink } }
   else match requestToLocalPath cfg.root req.path with
   | .error _ => { resp := { outcome := .code 4 0 } }
-  | .ok p =>
-    match w.stat with
-    | .absent => { resp := { outcome := .code 4 4 }, ops := [.stat p] }
-    | .softErr | .hardErr => { resp := { outcome := .crash }, ops := [.stat p] }
-    | st =>
-      if cfg.etags && w.etagMatches then { resp := { outcome := .code 2 3 }, ops := [.stat p] }
-      else match st with
-      | .dir =>
-        -- render_get_dir: a directory needs the trailing empty component (or no path at all)
-        if req.path ≠ [] ∧ !trailingEmpty req.path then
-          { resp := { outcome := .code 4 0 }, ops := [.stat p] }
-        else
-          { resp := { outcome := .code 2 5
-                      payload := joinComma (w.children.map (listEntry cfg.root p)) }
-            ops := [.stat p, .scandir p] ++ w.children.map fun c => .stat (p.child c.1) }
-      | .file =>
-        if trailingEmpty req.path then { resp := { outcome := .code 4 0 }, ops := [.stat p] }
-        else
-          { resp := sliceBlock w.content req.block2
-            ops := [.stat p, .openRead p] ++ (if w.obsPending then [.stat p] else []) }
-      | _ =>
-        -- neither directory nor regular file: `response` is never bound (UnboundLocalError)
-        { resp := { outcome := .crash }, ops := [.stat p] }
+  | .ok p => renderGetAt cfg req w p
 
 -- ---------------------------------------------------------------- PUT / DELETE ----
 
@@ -274,35 +282,62 @@ def renameWorks : StatRes → Bool
   | .absent | .file | .special => true
   | _ => false
 
+/-- `path.exists()` is true -/
+def StatRes.found : StatRes → Bool
+  | .dir | .file | .special => true
+  | _ => false
+
+/-- `path.stat()` raises something other than FileNotFoundError -/
+def StatRes.raises : StatRes → Bool
+  | .softErr | .hardErr => true
+  | _ => false
+
+/-- `render_put` after the path is known (fileserver.py:193-232) -/
+def renderPutAt (req : Request) (w : World) (p : PPath) : Result :=
+  -- If-None-Match: `path.exists()`
+  let ops1 : List FsOp := if req.ifNoneMatch then [.stat p] else []
+  if req.ifNoneMatch && w.stat == .hardErr then { resp := { outcome := .crash }, ops := ops1 }
+  else if req.ifNoneMatch && w.stat.found then { resp := { outcome := .code 4 12 }, ops := ops1 }
+  else
+    -- If-Match without the empty ETag: `path.stat()` and the ETag comparison
+    let chk := req.ifMatch && !req.ifMatchEmpty
+    let ops2 := ops1 ++ (if chk then [FsOp.stat p] else [])
+    if chk && w.stat == .absent then { resp := { outcome := .code 4 12 }, ops := ops2 }
+    else if chk && w.stat.raises then { resp := { outcome := .crash }, ops := ops2 }
+    else if chk && !w.ifMatchHit then { resp := { outcome := .code 4 12 }, ops := ops2 }
+    else
+      -- NamedTemporaryFile(dir=path.parent, delete=False); rename; on failure unlink + raise
+      let dir := p.parent
+      let tmp := dir.child w.tmpName
+      -- `io.open(dir, mode, opener=…)` inside NamedTemporaryFile refuses a NUL in `dir` with
+      -- ValueError before the opener (and with it `os.open`) runs
+      if dir.parts.any (·.contains 0) then { resp := { outcome := .crash }, ops := ops2 }
+      else if !w.parentIsDir then { resp := { outcome := .crash }, ops := ops2 ++ [.mkstemp dir] }
+      else if !renameWorks w.stat then
+        { resp := { outcome := .crash }, ops := ops2 ++ [.mkstemp dir, .rename tmp p, .unlink tmp] }
+      else
+        { resp := { outcome := .code 2 4 }, ops := ops2 ++ [.mkstemp dir, .rename tmp p, .stat p] }
+
 /-- `render_put` (fileserver.py:183-232) -/
 def renderPut (cfg : Config) (req : Request) (w : World) : Result :=
   if !cfg.write then { resp := { outcome := .code 4 3 } }
   else if req.path = [] ∨ trailingEmpty req.path then { resp := { outcome := .code 4 0 } }
   else match requestToLocalPath cfg.root req.path with
   | .error _ => { resp := { outcome := .code 4 0 } }
-  | .ok p =>
-    -- If-None-Match: `path.exists()`
-    let ops1 : List FsOp := if req.ifNoneMatch then [.stat p] else []
-    if req.ifNoneMatch ∧ w.stat = .hardErr then { resp := { outcome := .crash }, ops := ops1 }
-    else if req.ifNoneMatch ∧ (w.stat = .dir ∨ w.stat = .file ∨ w.stat = .special) then
-      { resp := { outcome := .code 4 12 }, ops := ops1 }
-    else
-      -- If-Match without the empty ETag: `path.stat()` and the ETag comparison
-      let chk := req.ifMatch && !req.ifMatchEmpty
-      let ops2 := ops1 ++ (if chk then [FsOp.stat p] else [])
-      if chk ∧ w.stat = .absent then { resp := { outcome := .code 4 12 }, ops := ops2 }
-      else if chk ∧ (w.stat = .softErr ∨ w.stat = .hardErr) then
-        { resp := { outcome := .crash }, ops := ops2 }
-      else if chk ∧ !w.ifMatchHit then { resp := { outcome := .code 4 12 }, ops := ops2 }
-      else
-        -- NamedTemporaryFile(dir=path.parent, delete=False); rename; on failure unlink + raise
-        let dir := p.parent
-        let tmp := dir.child w.tmpName
-        if !w.parentIsDir then { resp := { outcome := .crash }, ops := ops2 ++ [.mkstemp dir] }
-        else if !renameWorks w.stat then
-          { resp := { outcome := .crash }, ops := ops2 ++ [.mkstemp dir, .rename tmp p, .unlink tmp] }
-        else
-          { resp := { outcome := .code 2 4 }, ops := ops2 ++ [.mkstemp dir, .rename tmp p, .stat p] }
+  | .ok p => renderPutAt req w p
+
+/-- `render_delete` after the path is known (fileserver.py:244-260) -/
+def renderDeleteAt (req : Request) (w : World) (p : PPath) : Result :=
+  let chk := req.ifMatch && !req.ifMatchEmpty
+  let ops1 : List FsOp := if chk then [.stat p] else []
+  if chk && w.stat == .absent then { resp := { outcome := .code 4 4 }, ops := ops1 }
+  else if chk && w.stat.raises then { resp := { outcome := .crash }, ops := ops1 }
+  else if chk && !w.ifMatchHit then { resp := { outcome := .code 4 12 }, ops := ops1 }
+  else match w.stat with
+    | .absent => { resp := { outcome := .code 4 4 }, ops := ops1 ++ [.unlink p] }
+    | .file => { resp := { outcome := .code 2 2 }, ops := ops1 ++ [.unlink p] }
+    | .special => { resp := { outcome := .code 2 2 }, ops := ops1 ++ [.unlink p] }
+    | _ => { resp := { outcome := .crash }, ops := ops1 ++ [.unlink p] }
 
 /-- `render_delete` (fileserver.py:234-260) -/
 def renderDelete (cfg : Config) (req : Request) (w : World) : Result :=
@@ -310,17 +345,7 @@ def renderDelete (cfg : Config) (req : Request) (w : World) : Result :=
   else if req.path = [] ∨ trailingEmpty req.path then { resp := { outcome := .code 4 0 } }
   else match requestToLocalPath cfg.root req.path with
   | .error _ => { resp := { outcome := .code 4 0 } }
-  | .ok p =>
-    let chk := req.ifMatch && !req.ifMatchEmpty
-    let ops1 : List FsOp := if chk then [.stat p] else []
-    if chk ∧ w.stat = .absent then { resp := { outcome := .code 4 4 }, ops := ops1 }
-    else if chk ∧ (w.stat = .softErr ∨ w.stat = .hardErr) then
-      { resp := { outcome := .crash }, ops := ops1 }
-    else if chk ∧ !w.ifMatchHit then { resp := { outcome := .code 4 12 }, ops := ops1 }
-    else match w.stat with
-      | .absent => { resp := { outcome := .code 4 4 }, ops := ops1 ++ [.unlink p] }
-      | .file | .special => { resp := { outcome := .code 2 2 }, ops := ops1 ++ [.unlink p] }
-      | _ => { resp := { outcome := .crash }, ops := ops1 ++ [.unlink p] }
+  | .ok p => renderDeleteAt req w p
 
 /-- `Resource.render` (resource.py:114-144): dispatch on the method name; a method without
 `render_<name>` is 4.05 -/
